@@ -1787,11 +1787,17 @@ pub fn from_reader_with_options<'a, R: std::io::Read + 'a, T: DeserializeOwned>(
     );
 
     // Helper to attach snippet to an error using the RingReader's context
-    let attach_snippet = |e: Error| -> Error {
+    let attach_snippet = |source_failed: bool, e: Error| -> Error {
         // The ring retains the raw bytes in front of the transcoding decoder: for UTF-16 input
         // they are not text (a snippet cut from them shows every other character as a blank,
         // with the marker under the wrong one).
         if !with_snippet || crop_radius == 0 || shared_ring.starts_with_utf16_bom() {
+            return e;
+        }
+        // The snapshot reads ahead in the caller's reader. Once the reader has failed, or the input
+        // cap has been reached, the outcome is known and the reader is not asked for more: it may
+        // block (a peer that waits for an answer), and what it holds is not input any more.
+        if source_failed || e.is_budget_or_io() {
             return e;
         }
         match shared_ring.get_recent() {
@@ -1829,10 +1835,11 @@ pub fn from_reader_with_options<'a, R: std::io::Read + 'a, T: DeserializeOwned>(
                 // surface this as an EOF error to preserve expected error semantics
                 // for incompatible target types (e.g., bool).
                 return Err(attach_snippet(
+                    src.source_failed(),
                     Error::eof().with_location(src.last_location()),
                 ));
             } else {
-                return Err(attach_snippet(e));
+                return Err(attach_snippet(src.source_failed(), e));
             }
         }
     };
@@ -1843,6 +1850,7 @@ pub fn from_reader_with_options<'a, R: std::io::Read + 'a, T: DeserializeOwned>(
     match src.peek() {
         Ok(Some(_)) => {
             return Err(attach_snippet(
+                src.source_failed(),
                 Error::multiple_documents("use read or read_with_options to obtain the iterator")
                     .with_location(src.last_location()),
             ));
@@ -1852,13 +1860,13 @@ pub fn from_reader_with_options<'a, R: std::io::Read + 'a, T: DeserializeOwned>(
             if src.seen_doc_end() && !e.is_budget_or_io() {
                 // Trailing garbage after a proper document end marker is ignored.
             } else {
-                return Err(attach_snippet(e));
+                return Err(attach_snippet(src.source_failed(), e));
             }
         }
     }
 
     if let Err(e) = src.finish() {
-        return Err(attach_snippet(e));
+        return Err(attach_snippet(src.source_failed(), e));
     }
     Ok(value)
 }
